@@ -223,19 +223,38 @@ def main():
         }
         # Reverting these alone no longer breaks anything: a later repair covers the same input.
         masked = {"86ff219": "extern align(0) is now also rejected when embedded, by the lcm repair 79fa87e",
-                  "d2db2a1": "the glob pattern it escaped was replaced by a directory walk in 079114d"}
+                  "d2db2a1": "the glob pattern it escaped was replaced by a directory walk in 079114d",
+                  "89ad505": "add_module itself rejects a declared path that is already registered since d9e0ed9"}
+        # Which property found the defect a repair is for: from the known-findings file.
+        found_by = {}
+        for f in json.load(open("/verif/known_findings.json"))["findings"]:
+            if f.get("status") == "fixed" and f.get("commit"):
+                found_by.setdefault(f["commit"][:7], [])
+                if f["property"] not in found_by[f["commit"][:7]]:
+                    found_by[f["commit"][:7]].append(f["property"])
+        skipped = []
         for line in log:
             h, subject = line.split(" ", 1)
             if h in masked:
                 continue
-            expect = ["C12"]
+            expect = found_by.get(h[:7]) or ["C12"]
             for k, v in expect_for.items():
                 if k in subject:
-                    expect = v
+                    expect = sorted(set(expect) | set(v)) if h[:7] in found_by else v
             name = "undo-" + h
             diff = sh("git", "-C", REPO, "show", "--format=", h, "--", "src")
-            open(os.path.join(OUT, name + ".patch"), "w").write(diff)
+            path = os.path.join(OUT, name + ".patch")
+            open(path, "w").write(diff)
+            # A repair whose surroundings were rewritten by later repairs cannot be taken back
+            # alone any more.
+            r = subprocess.run(["git", "-C", SCRATCH, "apply", "-R", "--check", path], capture_output=True)
+            if r.returncode != 0:
+                os.remove(path)
+                skipped.append(h)
+                continue
             index.append({"name": name, "patch": name + ".patch", "reverse": True, "expect": expect, "subject": subject})
+        if skipped:
+            print("reverse patches that no longer apply to HEAD (left out):", " ".join(skipped))
     finally:
         sh("git", "-C", REPO, "worktree", "remove", "--force", SCRATCH)
         shutil.rmtree("/dev/shm/pyxis-mut/gen", ignore_errors=True)
